@@ -13,6 +13,7 @@ package schema
 //   child_new    copyStreamReaders created a parent with n children
 //   child_close  a child of a copy parent was closed (first close only)
 //   child_eof    the source of a copy parent reported io.EOF
+//   child_end    a child of a copy parent was handed io.EOF (n = its index): this child has been read to its end
 //   stream_new / stream_close_recv / stream_eof / stream_close_send   the same for channel-based streams
 //   mark         written by the harness through VerifC19Mark
 
@@ -170,6 +171,9 @@ func verifC19ChildRecv(parent any, err error) {
 		verifC19Obj("child_eof", parent, 0)
 	}
 }
+
+// verifC19ChildEnd records that child idx of a copy parent received io.EOF (every time it does).
+func verifC19ChildEnd(parent any, idx int) { verifC19Obj("child_end", parent, idx) }
 
 // channel-based streams: obj is the *stream[T]
 func verifC19StreamNew(s any, capacity int) { verifC19Obj("stream_new", s, capacity) }
